@@ -154,6 +154,12 @@ Definition step (P : params) (s : state) (i : instr) : option state :=
       end
   (* 6.4.2.5 padding; vendor extensions without effect on these rules *)
   | I_nop | I_GNU_window_save | I_GNU_args_size _ => Some s
+  (* optional vendor opcodes: an 8-byte advance; a return-address signing toggle without effect
+     on these rules; the obsolete offset_extended with the factored offset subtracted *)
+  | I_MIPS_advance_loc8 d => Some (new_row (st_loc s + d * p_caf P) s)
+  | I_AARCH64_negate_ra_state_with_pc => Some s
+  | I_GNU_negative_offset_extended r o =>
+      Some (with_rule (lv r) (ROffset (- (lv o * p_daf P))) s)
   end.
 
 Fixpoint run (P : params) (s : state) (is : list instr) : option state :=
